@@ -50,6 +50,29 @@ var queries = []string{
 	`{ devices { owner { id } } devices { owner { email } tags owner { age } } }`,
 }
 
+// one named fragment spread at two sites, with several duplicated aliases at one of them
+func init() {
+	xs := []string{"id", "temp", "tags"}
+	ys := []string{"name", "age", "email"}
+	for _, x1 := range xs {
+		for _, x2 := range xs {
+			for _, y1 := range ys[:2] {
+				for _, y2 := range ys[1:] {
+					if x1 == x2 || y1 == y2 {
+						continue
+					}
+					fr := fmt.Sprintf(" fragment F on User { id m: device { %s } n: boss { %s } }", x1, y1)
+					in := fmt.Sprintf("... on User { m: device { %s } n: boss { %s } }", x2, y2)
+					queries = append(queries,
+						"{ a: user(id: 1) { ...F "+in+" } b: user(id: 2) { ...F } }"+fr,
+						"{ b: user(id: 2) { ...F } a: user(id: 1) { "+in+" ...F } }"+fr,
+						"{ users { ...F "+in+" } u: user(id: 1) { ...F } }"+fr)
+				}
+			}
+		}
+	}
+}
+
 func normNumbers(v interface{}) interface{} { n, _ := gqlfix.Norm(v); return n }
 
 // dropExtraTypename removes "__typename" keys from got wherever want (the same position in the
